@@ -481,8 +481,8 @@ theorem decode_total :
         | some m => .ok { typ := t, msg := m }) ∧
     (∀ (sch : Schema) (f : Nat) (b : Bytes) (m : Msg), b.length ≤ f →
       decodeLoop sch f b m = decodeLoop sch b.length b m) ∧
-    (∀ (f : Nat) (stack : List Nat) (b : Bytes), b.length < f →
-      skipGroup f stack b = skipGroup (b.length + 1) stack b) := by
+    (∀ (f depth num : Nat) (b : Bytes), b.length < f →
+      skipGroup f depth num b = skipGroup (b.length + 1) depth num b) := by
   refine ⟨rfl, ?_, ?_, ?_, ?_, ?_⟩
   · intro t body h
     simp only [decodeOp, h]
@@ -509,8 +509,8 @@ theorem decode_total :
     cases unmarshal sch body <;> rfl
   · intro sch f b m h
     exact decodeLoop_fuel sch f b.length b m h (Nat.le_refl _)
-  · intro f stack b h
-    exact skipGroup_fuel f (b.length + 1) stack b h (Nat.lt_succ_self _)
+  · intro f depth num b h
+    exact skipGroup_fuel f (b.length + 1) depth num b h (Nat.lt_succ_self _)
 
 /-- the other half of the round trip — known finding A-200 in general form. A record a Go program can
     build (`Op.typed`: kinds fit, int64 in range, lengths below 2^63; strings hold any bytes) that is not
